@@ -147,7 +147,7 @@ func (cx *Ctx) runC01() {
 			}
 		}
 	}
-	st := cx.determinismSample(jobs, results, 30)
+	st, _ := cx.determinismSample(jobs, results, 30)
 	wall := time.Since(cx.Start).Seconds()
 	cov := map[string]any{
 		"evaluations":         evals,
